@@ -44,9 +44,10 @@ Definition split_ext (fn ext : bytes) : bytes * bytes :=
 Section names.
   Variable normpath : bytes -> bytes.
 
-  (** os.path.normpath(path).replace('\\', '/').rstrip('/'), '.' -> '' *)
+  (** os.path.normpath(path.replace('\\', '/')).replace('\\', '/').rstrip('/'), '.' -> '' *)
+  Definition unbackslash (p : bytes) : bytes := map (fun b => if b =? 92 then 47 else b) p.
   Definition norm_dir (p : bytes) : bytes :=
-    let q := rstrip 47 (map (fun b => if b =? 92 then 47 else b) (normpath p)) in
+    let q := rstrip 47 (unbackslash (normpath (unbackslash p))) in
     match q with [46] => [] | _ => q end.
 
   (** _get_file_parts (without relative_to); the result is the model key (ext, folder, name) *)
